@@ -18,8 +18,8 @@ LEVEL_TEXT = ("Theorems (Coq, over the reals, for an arbitrary objective functio
               "a bracket end that is a zero is returned as is; no sign change exits; NaN at an end exits (abstract instance); linear functions "
               "are solved exactly by the first Ridder point; ACCURACY at full strength: every returned x is an exact zero of f, or an end of a "
               "bracket [u,v] with f(u)f(v)<0 and v-u < acc, or (iteration-limit return, 2200 iterations) an end of such a bracket of width <= 2^-2200 of the original; "
-              "with the IVT, a continuous f has a zero within acc (resp. 2^-2200 of the width) of x; Ridder's point lies strictly inside the bracket, so the clamp the code applies to it is the identity in exact arithmetic; the end test Sign(fl)*Sign(fr) >= 0 is fl*fr >= 0 and the scaled step (function values divided by the largest of the three magnitudes) is Ridder's step (step_eq); the iteration limit is reached only from a bracket at least acc*2^2200 wide, hence for no bracket (width <= 2^1025) and accuracy (>= 2^-1074) that doubles can express; on every instance of the number interface (IEEE doubles with an infinite value at the other end included) a zero end is returned as is when neither end value is NaN; a history of requests served by one process is answered request by request as if each were the only one, up to the first exit. Not theorems: statements about IEEE rounding "
-              "(on doubles the clamp is active when rounding pushes Ridder's point past a bracket end; function values from 1e-300 to 1e300, brackets wider than the largest double, brackets of up to 630 decades with subnormal to 1e300 roots and accuracies down to 1e-14*|root| (up to ~2100 iterations), end values that overflow to +-inf, brackets a few ulps wide, histories of several requests in one process and midpoints that are exact roots are generated; K-C02-3, the overflow of x1+x2 in the midpoint for sign changes beyond DBL_MAX - |far end|, is a known finding): covered by running the extracted "
+              "with the IVT, a continuous f has a zero within acc (resp. 2^-2200 of the width) of x; Ridder's point lies strictly inside the bracket, so the clamp the code applies to it is the identity in exact arithmetic; the end test Sign(fl)*Sign(fr) >= 0 is fl*fr >= 0 and the scaled step (function values divided by the largest of the three magnitudes) is Ridder's step (step_eq); the iteration limit is reached only from a bracket at least acc*2^2200 wide, hence for no bracket (width <= 2^1025) and accuracy (>= 2^-1074) that doubles can express; on every instance of the number interface (IEEE doubles with an infinite value at the other end included) a zero end is returned as is when neither end value is NaN; a history of requests served by one process is answered request by request as if each were the only one, up to the first exit; NaN at one end takes precedence over an exact zero (+0 or -0) at the other end, in either position and on every instance, and ends the history the request belongs to. Not theorems: statements about IEEE rounding "
+              "(on doubles the clamp is active when rounding pushes Ridder's point past a bracket end; function values from 1e-300 to 1e300, brackets wider than the largest double, brackets of up to 630 decades with subnormal to 1e300 roots and accuracies down to 1e-14*|root| (up to ~2100 iterations), end values that overflow to +-inf, brackets a few ulps wide, histories of several requests in one process, midpoints that are exact roots, and the matrix of end-value kinds (NaN beyond a domain limit or exactly at it, at the lower or upper end, against an exact zero of value +0 or -0, tiny / ordinary / infinite values of either sign or NaN; zeros at both ends; NaN abscissae) as single requests and inside histories are generated; K-C02-3, the overflow of x1+x2 in the midpoint for sign changes beyond DBL_MAX - |far end|, is a known finding): covered by running the extracted "
               "model against the C++ code on every run (result, warning flag, full evaluation trace, bit for bit) and by evaluating every clause on "
               "the implementation's output (S4).")
 LEVEL_NOTE = ("Coq 8.16.1 kernel; standard-library real-number axioms (listed in the evidence); nan_end_exits is axiom-free. Hand-written model tied by "
@@ -464,6 +464,114 @@ def gen_seq(rng, n):
         cs.append(Case(ln, ("seq", "seq-" + pat)))
     return cs
 
+def gen_end_matrix(rng, n):
+    """every pairing of end-value kinds in which a NaN or an exact zero takes part: (NaN) x (exact zero with value +0 or -0, a ladder of tiny
+    values of either sign next to the zero, an ordinary value of either sign, +-inf, NaN), and (zero) x (zero, -0 zero, either sign), NaN at
+    the lower or the upper end, the ends in either order; as single requests, both orders, and as the first, a middle or the last request of
+    a history.  The functions are real functions with a restricted domain: G(x) with an exact zero at z, NaN beyond a domain limit d
+    (sqrt / log / fractional power of a negative number, a removable 0/0 singularity exactly at the end)."""
+    cs = []
+    exact = [(2.0, 3.0), (3.0, 2.0), (0.5, -1.0), (8.0, 2.0), (1024.0, 2.0), (2.0 ** -20, 3.0), (4.0, 1.5), (9.0, 0.5), (2.0 ** 100, 2.0), (2.0 ** -300, 2.0), (16.0, 0.25), (4.0, 2.5)]
+    def ordinary_request():
+        for _ in range(50):
+            a, b, root, name, params, fx = rng.choice([fam_powlaw, fam_poly, fam_saturating, fam_misc, fam_linear])(rng)
+            if not (a < b) or not all(math.isfinite(v) for v in [a, b] + list(params)): continue
+            f, _ = parse_fexpr(fx.split(), 0)
+            if classify(f, a, b)[0] not in ("zero", "opp"): continue
+            acc = pick_acc(rng, root, a, b)
+            if rng.random() < 0.5: a, b = b, a
+            return req_text(a, b, acc, name, params, fx)
+        return None
+    for k in range(n):
+        near_kind = rng.choice(["zero", "zero", "zero", "negzero", "negzero", "ladder", "ordinary-inside", "ordinary-outside", "inf"])
+        far_kind = rng.choice(["nan", "nan", "nan", "nan", "nan-at-limit", "zero2", "zero2", "plain", "nan-both"])
+        gk = rng.choice(["lin", "scaledlin", "prodpoly", "powlaw", "sqrtc", "logx", "quot"])
+        dirn = rng.choice([-1.0, 1.0])          # on which side of the zero the far end lies
+        K = 1.0
+        if gk == "lin":
+            z = rng.choice([0.0, float(rng.randint(-5, 5)), rng.uniform(-5, 5), rng.choice([-1, 1]) * p10(rng.uniform(-300, 300))]); G = f"- x {C(z)}"
+        elif gk == "scaledlin":
+            z = rng.choice([0.0, rng.uniform(-5, 5), p10(rng.uniform(-6, 6))]); K = rng.choice([-1, 1]) * p10(rng.choice([0.0, 0.0, rng.uniform(-300, 300)])); G = f"* {C(K)} - x {C(z)}"
+        elif gk == "prodpoly":
+            z = rng.choice([0.0, rng.uniform(-5, 5), p10(rng.uniform(-6, 6))]); G = f"* - x {C(z)} + c 0x1p+0 * x x"
+        elif gk == "powlaw":      # x^p - z^p, z^p exact; fractional p: NaN for x < 0 by itself
+            z, p = rng.choice(exact); c = _pow(z, p); G = f"- pow x {hx(p)} {C(c)}"
+            if p != int(p): dirn = -1.0
+        elif gk == "sqrtc":       # sqrt(x) - s: zero at s^2, NaN for x < 0 by itself
+            s = float(rng.randint(0, 12)) * 2.0 ** rng.randint(-30, 30); z = s * s; G = f"- sqrt x {C(s)}"; dirn = -1.0 if z > 0 else rng.choice([-1.0, 1.0])
+        elif gk == "logx":        # log(x/u): zero at u (a power of two: the quotient is exact), NaN for x < 0 by itself
+            u = 2.0 ** rng.randint(-200, 200); z = u; G = f"log / x {C(u)}"; dirn = -1.0
+        else:                     # (x - z)(x - q)/(x - q): 0/0 exactly at q
+            z = rng.choice([0.0, float(rng.randint(-5, 5)), rng.uniform(-5, 5)]); G = None
+        if near_kind == "negzero":      # the zero end has the value -0.0
+            if gk in ("lin", "prodpoly"): G = f"* c -0x1p+0 {G}"; K = -1.0
+            elif gk == "scaledlin" and K > 0: G = f"* {C(-K)} - x {C(z)}"; K = -K
+            elif gk != "scaledlin": near_kind = "zero"
+        own_nan = gk in ("sqrtc", "logx") or (gk == "powlaw" and p != int(p))      # G is NaN for x < 0 by itself
+        scale = abs(z) if z != 0 else rng.choice([1.0, 1.0, p10(rng.uniform(-300, 300))])
+        if own_nan: far = rng.choice([-scale * rng.uniform(0.01, 100), -TINY, -p10(rng.uniform(-320, 300))]); dirn = -1.0
+        else: far = z + dirn * scale * rng.choice([rng.uniform(0.5, 3.0), 10 ** rng.uniform(-6, 6), 1.0])
+        if not math.isfinite(far) or far == z: far = z + dirn * max(scale, TINY)
+        if not math.isfinite(far) or far == z: continue
+        span = abs(far - z) if not own_nan else z
+        # the near end
+        if near_kind in ("zero", "negzero"): near = z
+        elif near_kind == "ladder": near = ulps(z, rng.choice([-1, 1]) * rng.choice([1, 2, 3, 10, 100, 1000, 10 ** 5, 10 ** 7, 10 ** 10])) if z != 0 else rng.choice([-1, 1]) * p10(rng.uniform(-323, -3)) * min(1.0, scale)
+        elif near_kind == "ordinary-inside": near = z + dirn * span * rng.uniform(0.01, 0.9)
+        elif near_kind == "ordinary-outside": near = z - dirn * max(span, scale) * rng.uniform(0.01, 0.9)
+        else:      # "inf": +-inf at the near end, K'(x - z') with z' beyond the near end
+            near = z; zz = z - dirn * scale; Kb = rng.choice([-1, 1]) * DBL_MAX; G = f"* {C(Kb)} - x {C(zz)}"; own_nan = False
+            if not math.isfinite(zz) or zz == z or gk == "quot": continue
+            if far < 0 and dirn < 0 and gk in ("sqrtc", "logx", "powlaw"): far = z - scale * rng.uniform(0.5, 3.0)
+        if near == far or not math.isfinite(near): continue
+        # the domain limit d between the near end (and the zero) and the far end; everything beyond it (seen from the zero) is NaN
+        inner = max(near, z) if dirn > 0 else min(near, z)
+        if dirn * (inner - far) >= 0: continue
+        if gk == "quot":
+            q = far; fx = f"/ * - x {C(z)} - x {C(q)} - x {C(q)}"
+            if far_kind not in ("nan", "nan-at-limit"): continue
+        elif far_kind == "zero2":      # a zero at both ends: (x - z)(x - far), the second one with the value -0 when K < 0 ... no NaN anywhere
+            if near_kind not in ("zero", "negzero") or gk not in ("lin", "scaledlin"): continue
+            fx = f"* {G} - x {C(far)}"
+        elif far_kind == "plain" and not own_nan:      # no NaN anywhere: a zero of either sign (or a tiny / ordinary / infinite value) against an ordinary value
+            fx = G
+        elif own_nan:
+            if far_kind == "nan-both": near = far * rng.uniform(1.5, 10) if math.isfinite(far * 10) else far / 2
+            fx = G
+        else:
+            if far_kind == "nan-at-limit":      # NaN exactly at the far end, which is the (open) domain limit: 0*log(+-(x - d)) at x = d is 0*(-inf)
+                d = far; N = f"* c 0x0p+0 log - x {C(d)}" if dirn < 0 else f"* c 0x0p+0 log - {C(d)} x"
+            else:
+                t = rng.choice([rng.uniform(0.05, 0.95), 2.0 ** -rng.randint(1, 50), 1 - 2.0 ** -rng.randint(1, 50)])
+                d = inner + (far - inner) * t
+                if d == far or dirn * (d - inner) < 0: d = inner
+                if rng.random() < 0.15: d = inner      # the domain ends exactly at the near end / the zero (closed limit: still finite there)
+                N = f"* c 0x0p+0 sqrt - x {C(d)}" if dirn < 0 else f"* c 0x0p+0 sqrt - {C(d)} x"
+                if far_kind == "nan-both":      # both ends outside the domain, on the same side
+                    near = far - dirn * abs(far - d) * rng.uniform(0.01, 0.9)
+                    if dirn * (near - d) <= 0: continue
+            fx = f"* {G} + c 0x1p+0 {N}"      # G * (1 + 0*sqrt(..)): G itself (the sign of a zero included) inside the domain, NaN outside
+        a, b = near, far
+        if a == b: continue
+        if rng.random() < 0.5: a, b = b, a
+        acc = rng.choice([max(1e-14 * abs(z), TINY), 10 ** rng.uniform(-12, 0), abs(b - a)])
+        name = "ends-" + gk; tags = ("end-matrix", "near-" + near_kind, "far-" + far_kind)
+        r = rng.random()
+        if r < 0.55: cs.append(Case(line("root", a, b, acc, name, [z], fx), ("root",) + tags))
+        elif r < 0.7: cs.append(Case(line("both", a, b, acc, name, [z], fx), ("both",) + tags))
+        else:       # as a member of a history: first, in the middle, last
+            X = req_text(a, b, acc, name, [z], fx); A = ordinary_request(); B = ordinary_request()
+            if A is None or B is None: continue
+            seq = rng.choice([[X, A], [A, X], [A, X, B], [A, B, X], [A, A, X, A]])
+            cs.append(Case(f"seq {len(seq)} " + " ".join(seq), ("seq", "seq-ends") + tags))
+    # bracket ends that are NaN themselves (f(NaN) is NaN for every arithmetic expression in x)
+    for _ in range(max(4, n // 25)):
+        a, b, root, name, params, fx = rng.choice([fam_powlaw, fam_poly, fam_saturating, fam_misc, fam_linear])(rng)
+        if not all(math.isfinite(v) for v in [a, b] + list(params)): continue
+        a, b = rng.choice([(math.nan, b), (a, math.nan), (math.nan, math.nan), (math.nan, root), (root, math.nan)])
+        cs.append(Case(line("root", a, b, 1e-8, name, params, fx), ("root", "nan-abscissa")))
+    return cs
+
 
 def generate(rng, tier):
     cs = []
@@ -550,6 +658,8 @@ def generate(rng, tier):
     cs += gen_narrow(rng, 3000 if big else 120)
     cs += gen_seq(rng, 1500 if big else 70)
     cs += gen_midpoint_overflow(rng, 60 if big else 6)
+    # third strengthening pass: the matrix of end-value kinds with NaN and exact zeros (+0, -0), NaN abscissae
+    cs += gen_end_matrix(rng, 4000 if big else 260)
     return cs
 
 
@@ -672,7 +782,7 @@ def predicates(c, io):
     exited = io.startswith("EXIT")
     classes = []
     for (a, b, acc, fam, params, f, fx, _) in reqs:
-        lo, hi = min(a, b), max(a, b)
+        lo, hi = (min(a, b), max(a, b)) if a == a and b == b else (a, b)      # a NaN abscissa: no order; f(NaN) decides the class
         classes.append((classify(f, lo, hi), lo, hi))
     must_exit = [k for k, ((cls, fl, fr), lo, hi) in enumerate(classes) if cls in ("nan", "same")]
     if exited:
